@@ -6,35 +6,59 @@
   Model: Phil/Fetch.lean.  The `.tmp` marks of the implementation are the list `used` returned by
   `fetchScope`/`fetchRoot` next to the result (ids of the source definitions that were fetched);
   the harness (Main.lean) reports `all_definitions(sources)` minus `used`.  Lemmas and auxiliary
-  definitions (`ActiveIn`, `DefnIdActive`) are in Phil/Proofs/FetchLemmas.lean.
+  definitions (`ActiveIn`, `DefnIdActive`, `RefIdActive`, `MarkedBy`, `UsedIdActive`) are in
+  Phil/Proofs/FetchLemmas.lean.
 
   Proved here (all masters, all sources, both modes, all fuel):
-    * soundness of the marks: an id is marked only if it is the id of an *enabled definition* of
-      the sources reached through enabled scopes only (so nothing outside the sources, no scope and
-      no disabled object is ever marked), and such an id is the id of an entry of
-      `all_definitions(sources)` (or of a definition called `include`, which that list skips);
+    * soundness of the marks: an id is marked only on account of an *enabled definition* `d` of
+      the sources reached through enabled scopes only — it is the id of `d`, or one of the ids
+      consulted while the variables of `d` were resolved (`srcRefs d`, the `refs` recorded in
+      `d.meta.varRes` by `preResolve`; `resolveRefs` in Phil/Vars.lean).  So no scope and no
+      disabled object is ever marked for being fetched, and without recorded resolutions nothing
+      outside the fetched definitions is marked (`used_are_source_ids_plain`).  An id of the first
+      kind is the id of an entry of `all_definitions(sources)` (or of a definition called
+      `include`, which that list skips);
     * the reported list and the marks partition `all_definitions` by construction;
     * tracking is transparent.
   Not proved here: the exact characterisation of the unused list by master paths (`unused_exact`
   of the design) — checked by the harness.
 -/
 import Phil.Proofs.FetchLemmas
+import Phil.Proofs.VarsLemmas
 set_option linter.unusedVariables false
 namespace Phil.C06
 open Phil
 
-/-- **Marks are sound (`scope.fetch`).**  Every consumed id is the id of an enabled definition that
-    occurs in the sources below enabled scopes only. -/
+/-- **Marks are sound (`scope.fetch`).**  Every consumed id is marked on account of an enabled
+    definition `d` that occurs in the sources below enabled scopes only: it is the id of `d`, or
+    was consulted while the variables of `d` were resolved. -/
 theorem used_are_source_ids (e : Envs) (fuel : Nat) (diff : Bool) (sm : Meta) (mkids combined : List Obj)
     (ro : Obj) (used : List Nat) (h : fetchScope e fuel diff sm mkids combined = .ok (ro, used)) :
-    ∀ i ∈ used, ∃ d, ActiveIn d combined ∧ d.isDefn = true ∧ d.meta.id = some i :=
+    ∀ i ∈ used, ∃ d, ActiveIn d combined ∧ d.isDefn = true ∧ (d.meta.id = some i ∨ i ∈ srcRefs d) :=
   Phil.used_are_source_ids e fuel diff sm mkids combined ro used h
+
+/-- the same, split: the id of an active source definition, or an id consulted for one -/
+theorem used_are_source_ids_or_refs (e : Envs) (fuel : Nat) (diff : Bool) (sm : Meta)
+    (mkids combined : List Obj) (ro : Obj) (used : List Nat)
+    (h : fetchScope e fuel diff sm mkids combined = .ok (ro, used)) :
+    ∀ i ∈ used, DefnIdActive i combined ∨ RefIdActive i combined :=
+  fun i hi => (usedIdActive_iff i combined).mp (Phil.used_are_source_ids e fuel diff sm mkids combined ro used h i hi)
+
+/-- **Variable-free sources** (no recorded resolution on any active source definition): every
+    consumed id is the id of an enabled source definition — the statement of the model without
+    variable substitution. -/
+theorem used_are_source_ids_plain (e : Envs) (fuel : Nat) (diff : Bool) (sm : Meta)
+    (mkids combined : List Obj) (ro : Obj) (used : List Nat)
+    (hno : ∀ d, ActiveIn d combined → d.isDefn = true → d.meta.varRes = none)
+    (h : fetchScope e fuel diff sm mkids combined = .ok (ro, used)) :
+    ∀ i ∈ used, ∃ d, ActiveIn d combined ∧ d.isDefn = true ∧ d.meta.id = some i :=
+  fun i hi => usedIdActive_of_no_varRes hno (Phil.used_are_source_ids e fuel diff sm mkids combined ro used h i hi)
 
 /-- **Marks are sound (`master.fetch(sources)`).** -/
 theorem fetchRoot_used_are_source_ids (e : Envs) (diff : Bool) (master : List Obj)
     (ss : List (List Obj)) (ro : Obj) (used : List Nat)
     (h : fetchRoot e diff master ss = .ok (ro, used)) :
-    ∀ i ∈ used, DefnIdActive i ss.flatten :=
+    ∀ i ∈ used, UsedIdActive i ss.flatten :=
   Phil.used_are_source_ids e _ diff _ master ss.flatten ro used h
 
 /-- `ActiveIn` spelled out: membership at the top level, or below an enabled scope. -/
@@ -52,13 +76,15 @@ theorem activeIn_iff (x : Obj) (l : List Obj) :
 
 /-- **Consumed ids occur in `all_definitions`.**  A consumed id is the id of an entry of
     `all_definitions(sources)` — unless it belongs to an enabled definition called `include`, which
-    `all_definitions` skips. -/
+    `all_definitions` skips, or was consulted while the variables of an enabled source definition
+    were resolved (the model records those ids, `srcRefs`, without their documents). -/
 theorem used_in_allDefinitions (e : Envs) (diff : Bool) (master : List Obj)
     (ss : List (List Obj)) (ro : Obj) (used : List Nat)
     (h : fetchRoot e diff master ss = .ok (ro, used)) :
     ∀ i ∈ used, (∃ d ∈ allDefinitions ss.flatten, d.2.1.id = some i) ∨
-      (∃ m ws, ActiveIn (.defn m ws) ss.flatten ∧ m.name = "include".toList ∧ m.id = some i) :=
-  fun i hi => defnIdActive_allDefinitions (fetchRoot_used_are_source_ids e diff master ss ro used h i hi)
+      (∃ m ws, ActiveIn (.defn m ws) ss.flatten ∧ m.name = "include".toList ∧ m.id = some i) ∨
+      RefIdActive i ss.flatten :=
+  fun i hi => usedIdActive_allDefinitions (fetchRoot_used_are_source_ids e diff master ss ro used h i hi)
 
 /-- the list reported by `fetch(track_unused_definitions=True)`: the entries of `all_definitions`
     whose id was not marked (Main.lean computes exactly this) -/
@@ -120,5 +146,197 @@ example :
              .defn { name := ['b'], id := some 16 } [{ value := ['z'] }]]] used).map (·.1))
      | .error _ => none) = some ([11, 12, 16], [['z']]) := by
   decide +kernel
+
+/-- variable substitution: source `x = 5 ; a = $x` (ids 10, 11) after `preResolve`; fetching `a`
+    marks `a` itself and the consulted `x`; the value is the resolved word `5` -/
+example :
+    (match fetchRoot env12 false
+        [.defn { name := ['a'], id := some 1 } [{ value := ['1'] }]]
+        (([[.defn { name := ['x'], id := some 10 } [{ value := ['5'] }],
+            .defn { name := ['a'], id := some 11 } [{ value := ['$', 'x'] }]]] : List (List Obj)).map
+          (preResolve (fun _ => none) false)) with
+     | .ok (ro, used) => some (used, ro.children.map (fun k => k.words.map Word.value))
+     | .error _ => none) = some ([11, 10], [[['5']]]) := by
+  decide +kernel
+
+/-- … and an unresolved `$` without a recorded resolution is outside the model -/
+example :
+    errOf (fetchRoot env12 false
+        [.defn { name := ['a'], id := some 1 } [{ value := ['1'] }]]
+        [[.defn { name := ['a'], id := some 11 } [{ value := ['$', 'x'] }]]]) =
+      some (.unsupported "variable in source") := by
+  decide +kernel
+
+/-! ## Optional addition: only EARLIER definitions are ever marked as consulted
+
+  `resolveRefs` (Phil/Vars.lean) collects the ids that `resolve_variables` consults; every lookup it
+  makes is a `lexicalGet … id …` with the id of the definition being resolved as `stopId`, and
+  `Phil.C12.backwards_only` (= `Phil.lexicalGet_id_lt`, Phil/Proofs/VarsLemmas.lean) says that such
+  a lookup only finds objects with a strictly smaller id.  Hence, transitively, every consulted id is
+  strictly smaller than the id of the definition that was resolved. -/
+
+/-- **Only earlier definitions are consulted.**  Every id returned by `resolveRefs fuel chain id words`
+    is strictly smaller than `id`. -/
+theorem resolveRefs_are_earlier : ∀ (fuel : Nat) (chain : Chain) (id : Nat) (words : List Word),
+    ∀ i ∈ resolveRefs fuel chain id words, i < id := by
+  intro fuel
+  induction fuel with
+  | zero => intro chain id words i hi; simp [resolveRefs] at hi
+  | succ fuel ih =>
+    intro chain id words i hi
+    unfold resolveRefs at hi
+    rw [List.mem_flatMap] at hi
+    obtain ⟨w, _, hi⟩ := hi
+    split at hi
+    · cases hi
+    · split at hi
+      · cases hi
+      · rw [List.mem_flatMap] at hi
+        obtain ⟨f, _, hi⟩ := hi
+        split at hi
+        · cases hi
+        · split at hi
+          · rename_i m ws ch hget
+            split at hi
+            · rename_i sid hsid
+              have hlt : sid < id := lexicalGet_id_lt _ _ _ _ _ _ _ sid hget hsid
+              rw [List.mem_cons] at hi
+              rcases hi with hi | hi
+              · rw [hi]; exact hlt
+              · exact Nat.lt_trans (ih ch sid ws i hi) hlt
+            · cases hi
+          · cases hi
+
+/-- the ids recorded on `o` as consulted are all strictly smaller than `o`'s own id -/
+def RefsEarlier (o : Obj) : Prop := ∀ i ∈ srcRefs o, ∀ id, o.meta.id = some id → i < id
+
+theorem RefsEarlier.of_none {o : Obj} (h : o.meta.varRes = none) : RefsEarlier o := by
+  intro i hi
+  rw [srcRefs_of_varRes_none o h] at hi
+  cases hi
+
+/-- `x` occurs in `l` at any depth (enabled or not) -/
+inductive Occurs (x : Obj) : List Obj → Prop
+  | here {l : List Obj} : x ∈ l → Occurs x l
+  | deeper {l : List Obj} {m : Meta} {kids : List Obj} : Obj.scope m kids ∈ l → Occurs x kids → Occurs x l
+
+theorem Occurs.of_activeIn {x : Obj} {l : List Obj} (h : ActiveIn x l) : Occurs x l := by
+  induction h with
+  | here hm _ => exact .here hm
+  | deeper hm _ _ ih => exact .deeper hm ih
+
+theorem occurs_flatten {x : Obj} {ss : List (List Obj)} (h : Occurs x ss.flatten) :
+    ∃ s ∈ ss, Occurs x s := by
+  cases h with
+  | here hm =>
+    obtain ⟨s, hs, hx⟩ := List.mem_flatten.mp hm
+    exact ⟨s, hs, .here hx⟩
+  | deeper hm hk =>
+    obtain ⟨s, hs, hx⟩ := List.mem_flatten.mp hm
+    exact ⟨s, hs, .deeper hx hk⟩
+
+/-- **`preResolve` records earlier ids only.**  If the recorded references of the input are earlier
+    (in particular if nothing is recorded, as in a parser output), so are those of the output. -/
+theorem preResolveList_refs_earlier (env : Env) (diff : Bool) (total : Nat) :
+    ∀ (fuel : Nat) (outer : Chain) (objs : List Obj), (∀ x, Occurs x objs → RefsEarlier x) →
+      ∀ x, Occurs x (preResolveList env diff total fuel outer objs) → RefsEarlier x := by
+  intro fuel
+  induction fuel with
+  | zero => intro outer objs h x hx; exact h x hx
+  | succ fuel ih =>
+    intro outer objs h x hx
+    unfold preResolveList at hx
+    -- the image of one object
+    have himg : ∀ o ∈ objs, ∀ y,
+        y = (match o with
+          | .defn m ws =>
+            if !hasLiveDollar ws then o else
+            (match m.id with
+             | none => o
+             | some id =>
+               let res : VarRes := match resolveWords env (total + 2) (objs :: outer) id ws diff with
+                 | .ok rws => .ok rws (resolveRefs (total + 2) (objs :: outer) id ws)
+                 | .error (.runtime site line) => .err site line
+                 | .error _ => .err "unsupported" none
+               .defn { m with varRes := some res } ws)
+          | .scope m kids => .scope m (preResolveList env diff total fuel (objs :: outer) kids)) →
+        RefsEarlier y ∧
+        (∀ m' kids', y = .scope m' kids' → ∃ kids, Obj.scope m' kids ∈ objs ∧
+            kids' = preResolveList env diff total fuel (objs :: outer) kids) := by
+      intro o ho y hy
+      cases o with
+      | scope m kids =>
+        simp only at hy
+        subst hy
+        refine ⟨?_, ?_⟩
+        · exact h (.scope m kids) (.here ho)
+        · intro m' kids' heq
+          cases heq
+          exact ⟨kids, ho, rfl⟩
+      | defn m ws =>
+        simp only at hy
+        split at hy
+        · subst hy
+          exact ⟨h _ (.here ho), by intro m' kids' heq; cases heq⟩
+        · split at hy
+          · subst hy
+            exact ⟨h _ (.here ho), by intro m' kids' heq; cases heq⟩
+          · rename_i id hid
+            subst hy
+            refine ⟨?_, by intro m' kids' heq; cases heq⟩
+            intro i hi id' hid'
+            simp only [Obj.meta] at hid'
+            rw [hid] at hid'
+            cases hid'
+            unfold srcRefs at hi
+            simp only [Obj.meta] at hi
+            split at hi
+            · rename_i rws refs heq
+              simp only [Option.some.injEq] at heq
+              split at heq
+              · cases heq
+                exact resolveRefs_are_earlier _ _ _ _ i hi
+              · cases heq
+              · cases heq
+            · cases hi
+    cases hx with
+    | here hm =>
+      rw [List.mem_map] at hm
+      obtain ⟨o, ho, hxo⟩ := hm
+      exact (himg o ho x hxo.symm).1
+    | deeper hm hk =>
+      rw [List.mem_map] at hm
+      obtain ⟨o, ho, hxo⟩ := hm
+      obtain ⟨kids, hkids, hk'⟩ := (himg o ho _ hxo.symm).2 _ _ rfl
+      rw [hk'] at hk
+      exact ih _ kids (fun y hy => h y (.deeper hkids hy)) x hk
+
+theorem preResolve_refs_earlier (env : Env) (diff : Bool) (root : List Obj)
+    (h : ∀ x, Occurs x root → RefsEarlier x) :
+    ∀ x, Occurs x (preResolve env diff root) → RefsEarlier x :=
+  preResolveList_refs_earlier env diff _ _ _ root h
+
+/-- **Marks of a fetch from pre-resolved documents.**  Let every source be the `preResolve` image of
+    a document whose recorded references are earlier (e.g. none recorded).  Then every consumed id
+    is marked on account of an enabled source definition `d`: it is `d`'s own id, or it was
+    consulted for `d` and is strictly smaller than `d`'s id — only EARLIER definitions (of `d`'s
+    document) are ever marked as consulted. -/
+theorem fetchRoot_used_own_or_earlier (e : Envs) (env : Env) (diff : Bool) (master : List Obj)
+    (docs : List (List Obj)) (hdocs : ∀ s ∈ docs, ∀ x, Occurs x s → RefsEarlier x)
+    (ro : Obj) (used : List Nat)
+    (h : fetchRoot e diff master (docs.map (preResolve env diff)) = .ok (ro, used)) :
+    ∀ i ∈ used, ∃ d, ActiveIn d (docs.map (preResolve env diff)).flatten ∧ d.isDefn = true ∧
+      (d.meta.id = some i ∨ (i ∈ srcRefs d ∧ ∀ id, d.meta.id = some id → i < id)) := by
+  intro i hi
+  obtain ⟨d, ha, hd, hm⟩ := fetchRoot_used_are_source_ids e diff master _ ro used h i hi
+  refine ⟨d, ha, hd, ?_⟩
+  rcases hm with hm | hm
+  · exact .inl hm
+  · right
+    refine ⟨hm, ?_⟩
+    obtain ⟨s, hs, hocc⟩ := occurs_flatten (Occurs.of_activeIn ha)
+    rw [List.mem_map] at hs
+    obtain ⟨s0, hs0, rfl⟩ := hs
+    exact preResolve_refs_earlier env diff s0 (hdocs s0 hs0) d hocc i hm
 
 end Phil.C06
